@@ -73,6 +73,7 @@ type Exec struct {
 	curStmtPos token.Pos
 	closures map[types.Object]*ast.FuncLit
 	boxAx    map[string]bool
+	borrowed map[types.Object]bool
 	readKeys map[string]bool // heap field keys read by executed code (not by specifications)
 	floatN   int
 	sendValue ast.Expr // the value expression of the send statement whose assertions are being evaluated
@@ -346,6 +347,110 @@ func (e *Exec) computeTaint(fi *FuncInfo) {
 					e.tainted[lo] = true
 					changed = true
 				}
+			}
+			return true
+		})
+	}
+}
+
+// computeBorrowed: the wider notion used by __owned(x). A slice variable is "borrowed" if it may share its backing
+// array with something the function did not allocate: slice parameters, slices loaded from a field (x.f), slices
+// returned by an accessor (a function or method whose body is `return <field selection>`), and anything assigned,
+// re-sliced or appended FROM such a variable (append's first argument: the result may reuse its array).
+func (e *Exec) computeBorrowed(fi *FuncInfo) {
+	e.borrowed = map[types.Object]bool{}
+	for o := range e.tainted {
+		e.borrowed[o] = true
+	}
+	info := fi.Pkg.TypesInfo
+	isSlice := func(x ast.Expr) bool {
+		if tv, ok := info.Types[x]; ok && tv.Type != nil {
+			_, s := tv.Type.Underlying().(*types.Slice)
+			return s
+		}
+		return false
+	}
+	var fromHeap func(x ast.Expr) bool
+	fromHeap = func(x ast.Expr) bool {
+		switch v := x.(type) {
+		case *ast.ParenExpr:
+			return fromHeap(v.X)
+		case *ast.SliceExpr:
+			return fromHeap(v.X)
+		case *ast.SelectorExpr:
+			if sel := info.Selections[v]; sel != nil && sel.Kind() == types.FieldVal {
+				return isSlice(v)
+			}
+		case *ast.CallExpr:
+			if !isSlice(v) {
+				return false
+			}
+			var fn *types.Func
+			switch f := v.Fun.(type) {
+			case *ast.SelectorExpr:
+				fn, _ = info.Uses[f.Sel].(*types.Func)
+			case *ast.Ident:
+				fn, _ = info.Uses[f].(*types.Func)
+			}
+			if fn == nil {
+				return false
+			}
+			if cfi := e.P.Funcs[fn]; cfi != nil && cfi.Decl.Body != nil && len(cfi.Decl.Body.List) == 1 {
+				if r, ok := cfi.Decl.Body.List[0].(*ast.ReturnStmt); ok && len(r.Results) == 1 {
+					if sx, ok := r.Results[0].(*ast.SelectorExpr); ok {
+						if sel := cfi.Pkg.TypesInfo.Selections[sx]; sel != nil && sel.Kind() == types.FieldVal {
+							return true
+						}
+					}
+				}
+			}
+		}
+		return false
+	}
+	for changed := true; changed; {
+		changed = false
+		mark := func(lhs ast.Expr, src ast.Expr) {
+			li, _ := lhs.(*ast.Ident)
+			if li == nil {
+				return
+			}
+			lo := info.Defs[li]
+			if lo == nil {
+				lo = info.Uses[li]
+			}
+			if lo == nil || e.borrowed[lo] {
+				return
+			}
+			if c, ok := src.(*ast.CallExpr); ok {
+				if id, ok := c.Fun.(*ast.Ident); ok && id.Name == "append" && len(c.Args) > 0 {
+					src = c.Args[0]
+				}
+			}
+			b := fromHeap(src)
+			if !b {
+				if ri := rootIdent(src); ri != nil {
+					if ro := info.Uses[ri]; ro != nil && e.borrowed[ro] {
+						if _, isSl := ro.Type().Underlying().(*types.Slice); isSl {
+							b = true
+						}
+					}
+				}
+			}
+			if b {
+				e.borrowed[lo] = true
+				changed = true
+			}
+		}
+		ast.Inspect(fi.Decl.Body, func(n ast.Node) bool {
+			switch as := n.(type) {
+			case *ast.AssignStmt:
+				if len(as.Lhs) == len(as.Rhs) {
+					for i := range as.Rhs {
+						mark(as.Lhs[i], as.Rhs[i])
+					}
+				}
+			case *ast.IfStmt:
+				// `if x := f(); cond {` is an AssignStmt in Init: visited by Inspect
 			}
 			return true
 		})
